@@ -53,7 +53,7 @@ type Zlisp struct {
 	// API use, since infix is already default at repl
 	WrapLoadExpressionsInInfix bool
 
-	// recursion depth of Compare and of the comment filter (see maxDataDepth)
+	// recursion depth of Compare and of the comment filter / source walker (see maxDataDepth)
 	compareDepth int
 	filterDepth  int
 
